@@ -104,6 +104,47 @@ def _seeds(prop, root):
     return out
 
 
+def _sweep_one(job):
+    from .sweep import run_mutant
+    code, first = run_mutant(job)
+    return {"file": job["rel"], "function": job["func"], "line": job["line"], "operator": job["desc"], "old": job["old"],
+            "new": job["new"], "code": code, "first_report": first}
+
+
+def _sweep(prop: str, root: str, seed: int, analysed):
+    """A bounded, seeded sample of syntactic mutants of every function this property's check analysed; each is handed to
+    the check in memory.  Recorded as the checker's sensitivity - survivors are triaged in DESIGN.md section 10 (most change
+    nothing a property names); the result never changes the exit code."""
+    import random
+    from .sweep import mutants_for_functions
+    t0 = time.time()
+    allm = mutants_for_functions(root, analysed)
+    limit = int(os.environ.get("SA_SWEEP_LIMIT", "300"))
+    rnd = random.Random(f"{prop}-{seed}")
+    sample = allm if (limit <= 0 or len(allm) <= limit) else rnd.sample(allm, limit)
+    jobs = [{"prop": prop, "rel": rel, "func": q, "line": ln, "desc": d, "old": o, "new": n, "src": src, "root": root}
+            for (rel, q, ln, d, o, n, src) in sample]
+    n = min(16, os.cpu_count() or 4, max(1, len(jobs)))
+    with mp.get_context("fork").Pool(n, maxtasksperchild=60) as pool:
+        res = pool.map(_sweep_one, jobs, chunksize=4)
+    rep = [r for r in res if r["code"] == 1]
+    ref = [r for r in res if r["code"] == 2]
+    sur = [r for r in res if r["code"] == 0]
+    by_fn = {}
+    for r in res:
+        d = by_fn.setdefault(r["function"], {"mutants": 0, "reported": 0})
+        d["mutants"] += 1
+        d["reported"] += 1 if r["code"] == 1 else 0
+    return {"generated": len(allm), "mutants": len(res), "reported": len(rep), "refused": len(ref), "survived": len(sur),
+            "sample_seed": f"{prop}-{seed}", "limit": limit, "per_function": by_fn,
+            "survivors": [{k: r[k] for k in ("file", "function", "line", "operator", "old", "new")} for r in sur[:60]],
+            "operators": "comparison / arithmetic / boolean swaps, constants, negated tests, dropped statements and raises, swapped or "
+                         "dropped arguments, sibling names, slice bounds (sa/selftest/sweep.py)",
+            "note": "checker sensitivity, not a verdict on /repo: a survivor either changes nothing a property names (logging, "
+                    "messages, heuristics, defaults, equivalent forms) or is a gap; see DESIGN.md section 10",
+            "wall_s": round(time.time() - t0, 1)}
+
+
 def run_for(prop: str, root: str, seed: int, evidence_dir=None):
     t0 = time.time()
     items = [(p, k, rel, old, new, note, root) for (p, k, rel, old, new, note) in CORPUS if p == prop]
@@ -129,9 +170,18 @@ def run_for(prop: str, root: str, seed: int, evidence_dir=None):
         print(f"  CHECKER-NOISE (refactor not silent): {r['file']}: {r['note']} -> {r['outcome']} {r.get('first_report', '')}")
     evidence_dir = evidence_dir or os.path.join(os.path.dirname(os.path.dirname(os.path.dirname(os.path.abspath(__file__)))), "evidence")
     path = os.path.join(evidence_dir, f"{prop}.json")
+    sweep = None
+    if os.path.exists(path) and os.environ.get("SA_SWEEP", "1") != "0":
+        with open(path) as f:
+            analysed = json.load(f)["coverage"].get("functions_analysed", [])
+        sweep = _sweep(prop, root, seed, analysed)
+        print(f"[{prop}] mutation sample of the analysed functions: {sweep['reported']}/{sweep['mutants']} reported, "
+              f"{sweep['refused']} refused, {sweep['survived']} survived (of {sweep['generated']} generated; {sweep['wall_s']}s)")
     if os.path.exists(path):
         with open(path) as f:
             ev = json.load(f)
+        if sweep is not None:
+            ev["coverage"]["mutation_sample"] = sweep
         ev["coverage"]["self_validation"] = {
             "programs": len(mutants) + len(refs), "mutants": len(mutants), "mutants_reported": len(killed),
             "refactors": len(refs), "refactors_silent": len(silent), "skipped_anchor_absent": len(skipped),
